@@ -68,7 +68,7 @@ class Built:
     pass
 
 
-def build(env, eff_i, pre_i, c0, c1, goal_i, second):
+def build(env, eff_i, pre_i, c0, c1, goal_i, second, same_name=False):
     from unified_planning.model import Fluent, InstantaneousAction, Object
     from unified_planning.model.multi_agent import Agent, MultiAgentProblem
 
@@ -141,7 +141,8 @@ def build(env, eff_i, pre_i, c0, c1, goal_i, second):
         act1.add_effect(F(q), True, em.Dot(A2, F(l2)))
         A1.add_action(act1)
     # A2: a parameterised action reading A1's public fluent and the environment
-    b = InstantaneousAction("mark", _env=env, x=T)
+    # action names are unique per agent only: with same_name both agents own an action called act0, with different bodies
+    b = InstantaneousAction("act0" if same_name else "mark", _env=env, x=T)
     x = em.ParameterExp(b.parameter("x"))
     b.add_precondition(em.Or(em.Not(F(p, [x])), F(e)))
     b.add_effect(F(p, [x]), True)
@@ -188,7 +189,7 @@ def _gkey(ma, objs):
     return (ma.agent.name, ma.action.name, tuple(o.name for o in objs))
 
 
-def h_ma(ctx, compiler, eff_i, second=False, pres=None, conds=None):
+def h_ma(ctx, compiler, eff_i, second=False, pres=None, conds=None, same_name=False):
     import z3
     from unified_planning.engines import CompilationKind
     from unified_planning.engines.compilers.ma_conditional_effects_remover import MAConditionalEffectsRemover
@@ -206,7 +207,7 @@ def h_ma(ctx, compiler, eff_i, second=False, pres=None, conds=None):
     goal_i = ((pre_i or 0) + c0 + c1) % len(GOALS)
     env = ctx.fresh_env()
     try:
-        g = build(env, eff_i, pre_i, c0, c1, goal_i, second)
+        g = build(env, eff_i, pre_i, c0, c1, goal_i, second, same_name)
     except (UPConflictingEffectsException, UPTypeError):
         ctx.assume(False)
     prob = g.problem
@@ -366,12 +367,17 @@ def shards(tier, seed):
             for i in range(len(EFFS)):
                 out.append(dict(name=f"{comp}-eff{i}", fn="h_ma", engine="direct", budget=900, query_timeout=60,
                                 kwargs=dict(compiler=comp, eff_i=i, second=(i % 2 == 0), pres=[None, 0, 3, 4, 6], conds=[0, 1, 2, 3, 5, 7, 8])))
+            for i in (0, 1):
+                out.append(dict(name=f"{comp}-eff{i}-samename", fn="h_ma", engine="direct", budget=900, query_timeout=60,
+                                kwargs=dict(compiler=comp, eff_i=i, second=False, pres=[None, 3], conds=[0, 2, 3, 5], same_name=True)))
     else:
         for comp in ("cerm", "dcrm"):
             for i in range(len(EFFS)):
                 for second in (False, True):
                     out.append(dict(name=f"{comp}-eff{i}-{'two' if second else 'one'}", fn="h_ma", engine="direct", budget=3000, query_timeout=120,
                                     kwargs=dict(compiler=comp, eff_i=i, second=second)))
+                out.append(dict(name=f"{comp}-eff{i}-samename", fn="h_ma", engine="direct", budget=3000, query_timeout=120,
+                                kwargs=dict(compiler=comp, eff_i=i, second=False, same_name=True)))
     return out
 
 
